@@ -655,7 +655,7 @@ func ruleFor(prop string) string {
 	case "C05":
 		return "each run draws from one choice tape: system, universe (generated, or a testdata universe of /repo), insertion order, PyPI cache capacity, optional foreign prelude, task programs of Resolve calls and the schedule; non-trivial = at least one result graph with >=2 nodes and, in concurrent runs, at least one context switch inside an operation; distinct = distinct hash of (universe text, programs, schedule signature, insertion order, cache capacity)"
 	case "C14":
-		return "each run draws an operation history (<=60 AddVersion / Version / Versions / Requirements / MatchingVersions calls over a small key space, three systems) checked step by step against a map-based reference model; non-trivial = at least one re-addition of an existing key with changed data that is read afterwards; distinct = distinct hash of the operation sequence"
+		return "each run draws an operation history (<=60 AddVersion / Version / Versions / Requirements / MatchingVersions calls over a small key space, three systems) checked step by step against a map-based reference model, optionally followed by a forked phase of 2-4 concurrent read-only callers under the race oracle; non-trivial = at least one re-addition of an existing key with changed data that is read afterwards; distinct = distinct hash of the operation sequence and reader schedule"
 	case "C18":
 		return "each run draws an npm service universe (bundle trees to depth 3, aliases, scoped names), task programs of Resolve and raw client calls on one shared APIClient, and the schedule with RPC latencies; non-trivial = a bundle registered by one task and read by another, or >=2 tasks on overlapping roots with >=1 preemption; distinct = distinct hash of (service universe, programs, schedule signature)"
 	case "C19":
